@@ -716,6 +716,68 @@ def smtp_verdict_explore(db, rep):
     return H
 
 
+def reply_framing_sites(db, rep):
+    """smtpcode() over reply byte streams (shared with C06: a reply that is not framed exactly desynchronises every later command)"""
+    prog = db.program('qmail-remote')
+    sc = prog.fn('smtpcode', 'qmail-remote.c')
+    sites4 = {}
+    for code4 in (250, 451, 554, 199):
+        H4 = CodeHooks(code4)
+        eng4 = Engine(db, prog, H4, max_states=400000)
+        eng4.run(sc)
+        rep.count_states(eng4.states, eng4.transitions)
+        for inst, v in H4.sites.items():
+            if inst not in sites4 or (sites4[inst][0] and not v[0]):
+                sites4[inst] = v
+        if H4.gets < 4 or (H4.returns == 0 and all(v[0] for v in H4.sites.values())):
+            raise AnalysisBroken('smtpcode(): reads/returns not explored')
+    return sites4
+
+
+def dropped_sites(db, rep):
+    """dropped(): the report for a lost connection is a temporary failure that says "Possible duplicate!" exactly when the
+    connection was lost inside the critical window (flagcritical set), whatever errno holds"""
+    from rules import libtab as _lt
+    prog = db.program('qmail-remote')
+    fn = prog.fn('dropped', 'qmail-remote.c')
+    bad = None
+    n = 0
+    for crit in (0, 1):
+        for err in (0, 110, 104, 32, 4):
+            outb = []
+
+            class DH(_lt.SAConc, _lt.Conc):
+                def _put(self_, E, x, args):
+                    p, k = _lt._one(args[1]), _lt._one(args[2])
+                    outb.append(self_.mem(E, p, k) if isinstance(k, int) and 0 <= k < 300 else b'?')
+                    return [Outcome(ret=fs(0))]
+                prim_substdio_put = prim_substdio_bput = _put
+
+                def _puts(self_, E, x, args):
+                    outb.append(self_.cstring(E, _lt._one(args[1])) or b'?')
+                    return [Outcome(ret=fs(0))]
+                prim_substdio_puts = prim_substdio_bputs = _puts
+
+                def prim_substdio_flush(self_, E, x, args):
+                    return [Outcome(ret=fs(0))]
+
+                def prim_ip_fmt(self_, E, x, args):
+                    return [Outcome(ret=fs(0))]
+
+                def prim__exit(self_, E, x, args):
+                    outb.append(('exit', _lt._one(args[0])))
+                    return 'noreturn'
+            H = DH('dropped')
+            _lt._run_conc(db, rep, prog, fn, {'G:flagcritical': fs(crit), '$errno': fs(err), 'G:error_timeout': fs(110)}, 'dropped', H)
+            n += 1
+            text = b''.join(o for o in outb if isinstance(o, bytes) and o is not None)
+            ex = [o for o in outb if isinstance(o, tuple)]
+            ok = text[:1] == b'Z' and (b'Possible duplicate' in text) == bool(crit) and ex == [('exit', 0)] and text.endswith(b'\0')
+            if not ok and bad is None:
+                bad = 'connection lost with flagcritical = %d and errno = %d: the report is %r, exits %s; documented: a Z report, with "Possible duplicate!" exactly when the message may already have been accepted' % (crit, err, text[:120], ex)
+    return {'dropped:Z-report-with-duplicate-warning-iff-inside-the-critical-window': (bad is None, 'qmail-remote.c:dropped', bad or '%d (flagcritical, errno) pairs' % n, [])}
+
+
 def run(ctx):
     db, rep = ctx.db, ctx.report
     prog = db.program('qmail-remote')
@@ -791,21 +853,12 @@ def run(ctx):
 
     # ---- 4 smtpcode framing
     r4 = rep.rule('C09.4-reply-framing', 'R-TRANSDUCER', 'smtpcode(): a reply ends at the LF of the first line whose 4th byte is not "-"; the code comes from the first three bytes (lines shorter than their code: don\'t care)')
-    sc = prog.fn('smtpcode', 'qmail-remote.c')
-    sites4 = {}
-    for code4 in (250, 451, 554, 199):
-        H4 = CodeHooks(code4)
-        eng4 = Engine(db, prog, H4, max_states=400000)
-        eng4.run(sc)
-        rep.count_states(eng4.states, eng4.transitions)
-        for inst, v in H4.sites.items():
-            if inst not in sites4 or (sites4[inst][0] and not v[0]):
-                sites4[inst] = v
-        if H4.gets < 4 or (H4.returns == 0 and all(v[0] for v in H4.sites.values())):
-            raise AnalysisBroken('smtpcode(): reads/returns not explored')
+    sites4 = reply_framing_sites(db, rep)
     for inst, (ok, where, detail, path) in sorted(sites4.items()):
         r4.check(ok, inst, where, detail, path)
-    r4.expect_min(2)
+    for inst_, v_ in sorted(dropped_sites(db, rep).items()):
+        r4.check(v_[0], inst_, v_[1], v_[2], v_[3])
+    r4.expect_min(3)
     rep.exhaustive_rules.append('C09.4-reply-framing')
 
     # ---- 5 rspawn report
